@@ -154,12 +154,20 @@ rf_wavheader_format_t rf_wavheader_get_format(rf_wavheader_t *wh)
 void rf_wavheader_init(rf_wavheader_t *wh, int sfreq, int num_channels,
 		rf_wavheader_format_t format)
 {
+	// start from a clean slate so that fields that are not emitted for
+	// this format (fact chunk, fmt extension) do not keep stale values
+	memset(wh, 0, sizeof(*wh));
+
 	memcpy(wh->chunk_id, riff, 4);
-	wh->chunk_size = 12 + 18 + 12 + 8; // chunks: riff, fmt, fact, data
 	memcpy(wh->format, wave, 4);
 
 	memcpy(wh->fmt_chunk_id, fmt, 4);
 	wh->fmt_chunk_size = (format == RF_WAVHEADER_FLOAT ? 18 : 16);
+
+	// everything after the chunk_size field: "WAVE", the fmt chunk, the
+	// fact chunk (f.p. only) and the data chunk header
+	wh->chunk_size = 4 + (8 + wh->fmt_chunk_size) +
+			 (format == RF_WAVHEADER_FLOAT ? 12 : 0) + 8;
 	wh->audio_format = (format == RF_WAVHEADER_FLOAT ? 3 : 1);
 	wh->num_channels = num_channels;
 	wh->sample_rate = sfreq;
@@ -187,9 +195,10 @@ void rf_wavheader_set_num_frames(rf_wavheader_t *wh, unsigned int num_frames)
 	wh->chunk_size -= wh->data_chunk_size;
 
 	wh->data_chunk_size = num_frames * wh->block_align;
-	// doesn't matter if there is no fact chunk, we'll not emit this if this
-	// chunk is absent
-	wh->sample_length = num_frames * wh->num_channels;
+	// sample_length lives in the fact chunk, without one it is never
+	// emitted (and would not survive an encode/decode round trip)
+	if (0 == memcmp(fact, wh->fact_chunk_id, 4))
+		wh->sample_length = num_frames * wh->num_channels;
 	wh->chunk_size += num_frames * wh->block_align;
 }
 
